@@ -239,6 +239,8 @@ def alphabet(m: Model):
                 ops.append(("sample", idx, ml, False))
     other = {n: RESIDUES[m.mol][i][:2].replace(RESIDUES[m.mol][i][1], "-") if i else RESIDUES[m.mol][i][:2] for i, n in enumerate(names)}
     ops.append(("concat", tuple(other.items())))
+    if len(other) > 1:
+        ops.append(("concat", tuple(reversed(list(other.items())))))  # same names, different order in the right operand
     ops.append(("to_type",))
     ops.append(("copy",))
     ops.append(("deepcopy", True))
@@ -415,13 +417,12 @@ def step(aln, m, op):
     if op[0] == "to_type":
         pass
     probs = basic_problems(r, m2, op)
-    if probs and empty:
-        # an empty result may be represented in any way that has no content
-        try:
-            if not any(rows_of(r).values()):
-                return None, None, [], "empty"
-        except Exception:  # noqa: BLE001
+    if empty:
+        # an empty result may be refused (exception / None, handled above) or returned; a returned object must be
+        # consistently empty (rows, get_gapped_seq, get_seq ...) but is not explored further
+        if probs and probs[0][0] in ("names / order", "raised while reading rows") and not m2.rows:
             return None, None, [], "empty"
+        return (None, None, probs, "bad") if probs else (None, None, [], "empty")
     return r, m2, probs, "ok"
 
 
